@@ -461,6 +461,10 @@ class _ScopeVisitor(_ExpressionVisitor):
         # no new name, but the value may contain comprehension scopes
         _ExpressionVisitor(self).visit(node.value)
 
+    def _TypeAlias(self, node):
+        # `type X = ...` binds X in the enclosing scope
+        self._assigned(node.name.id, None)
+
     def _For(self, node):
         self._update_evaluated(node.target, node.iter, ".__iter__().next()")
         _ExpressionVisitor(self).visit(node.iter)
